@@ -185,6 +185,12 @@ ADDED['C04'] += ' Keys are ordered through the key type in the range filter too.
 ADDED['C13'] += ' The worker never unwraps the active-blob slot; no deadline stays armed for a deferred dump whose event was taken out.'
 ADDED['C17'] += ' No key- or file-dependent value is cached in a process-wide static.'
 ADDED['C12'] += ' The size recorded as synced counts completed writes only, never the reservation of an append in flight (finding F16).'
+ADDED['C01'] += ' A record is stamped with the timestamp the client passed, unchanged.'
+ADDED['C02'] += ' Delete and write stamp the record with the client timestamp; the metadata of a deletion marker is never a lookup filter.'
+ADDED['C13'] += ' The first-request time of a deferred event is set at its creation only.'
+ADDED['C12'] += ' Dirty bytes are the exact difference of the written and the synced counter.'
+ADDED['C16'] += ' migrate_blob reports success only after the copy pipeline ran.'
+ADDED['C06'] += ' A read is refused only against the size of the file, never against a counter that can lag behind it.'
 ADDED['C13'] += ' A clean close completes the index dumps of the closed blobs (finding F17).'
 ADDED['C16'] += ' After a clean close the index file of every closed blob is current (finding F17); the offline reader skips record data only after a header validation failure.'
 
